@@ -268,6 +268,29 @@ def plan_tour_script(cap):
     return "\n".join(lines) + "\n", {"model_states": nstates, "model_transitions": len(edges), "uncovered": left, "tours": len(tours)}
 
 
+def plan_wear_script(cap, rng):
+    """slots are reusable indefinitely: within ONE activation the plan is filled, then taken from full to one short of full and
+    back several hundred times (more often than any 8-bit bookkeeping counter can count), removing at varying positions;
+    every step is compared with the model (which has no such limit)"""
+    lines = ["plan new"]
+    for k in range(cap):
+        lines.append("plan append %d %d" % (k % 2, (k // 2) % 2))
+    lines.append("plan append 1 1")         # refused: full
+    rounds = 300 if cap <= 64 else 40
+    for r in range(rounds):
+        if cap > 1 and r % 7 == 3:
+            lines.append("plan sweep %d" % (1 << rng.randrange(min(cap, 16))))
+        else:
+            lines.append("plan remove %d" % rng.randrange(1, cap + 1))
+        lines.append("plan append %d %d" % (r % 2, (r // 2) % 2))
+        if r % 50 == 49:
+            lines.append("plan append 0 1")     # refused: full again
+    lines.append("plan clear")
+    for k in range(cap):
+        lines.append("plan append %d %d" % (k % 2, 1))
+    return "\n".join(lines) + "\n"
+
+
 def plan_random_script(cap, rng, nops):
     lines = ["plan new"]
     n = 0
@@ -557,6 +580,7 @@ def extra_c10(tier, seed):
         if cap <= (3 if q else 4):
             text, info = plan_tour_script(cap)
         text += plan_random_script(cap, rng, 300 if q else 3000)
+        text += plan_wear_script(cap, rng)
         return text, info
     caps = [1, 2, 3, 4, 8] if q else [1, 2, 3, 4, 5, 8, 17, 64, 254]
     return _run("plan", tier, seed, caps, script, ["TL_cap1", "TL_cap2", "TL_cap3"] + ([] if q else ["TL_cap4"]), "TaskList.tla")
